@@ -6,11 +6,13 @@ def fresh(name, tag):
     return E('ref', n='%s@%s' % (name, tag), dk='sym')
 
 
-def symexec(func, path):
+def symexec(func, path, env0=None, inliner=None, depth=0):
     """Returns list of (event, env) where env maps the rendering of a local variable to
     the expression (over parameters, memory reads and call results) it holds *before* the
-    event.  Assume pseudo-events carry the substituted condition in ev.rhs."""
-    env = {}
+    event.  Assume pseudo-events carry the substituted condition in ev.rhs.
+    inliner(ev, env, depth) may return a list of (event, env) steps of the callee to splice
+    in right after the call event (events of the callee are expressed over the caller's values)."""
+    env = dict(env0 or {})
     out = []
     for ev in func.path_events(path):
         if ev.kind == 'loophead':
@@ -33,6 +35,10 @@ def symexec(func, path):
             for a in ev.args or ():
                 if a.k == 'un' and a.op == '&' and a.ch[0].k == 'ref':
                     env[a.ch[0].s] = fresh(a.ch[0].s, 'out%d' % ev.nid)
+            if inliner is not None:
+                sub = inliner(ev, out[-1][1], depth)
+                if sub:
+                    out.extend(sub)
     return out
 
 
